@@ -27,6 +27,12 @@ type dialFunc func(network, address string) (net.Conn, error)
 // the handshake was completed successfully before forwarding data
 // between the client and server.
 func newWSHandler(host string, dial dialFunc, conn gkm.Gauge) http.Handler {
+	return newWSHandlerWait(host, dial, conn, time.Second)
+}
+
+// newWSHandlerWait is newWSHandler with the time the upstream has
+// for its answer to the upgrade request.
+func newWSHandlerWait(host string, dial dialFunc, conn gkm.Gauge, wait time.Duration) http.Handler {
 	return http.HandlerFunc(func(w http.ResponseWriter, r *http.Request) {
 		atomic.AddInt64(&tunnels, 1)
 		defer atomic.AddInt64(&tunnels, -1)
@@ -80,7 +86,7 @@ func newWSHandler(host string, dial dialFunc, conn gkm.Gauge) http.Handler {
 		// read the initial response to check whether we get an HTTP/1.1 101 ... response
 		// to determine whether the handshake worked.
 		b := make([]byte, 1024)
-		if err := out.SetReadDeadline(time.Now().Add(time.Second)); err != nil {
+		if err := out.SetReadDeadline(time.Now().Add(wait)); err != nil {
 			log.Printf("[ERROR] Error setting read timeout for %s: %s", r.URL, err)
 			http.Error(w, "error setting read timeout", http.StatusInternalServerError)
 			return
